@@ -42,7 +42,9 @@ Definition cfg_sane (cfg : config) : bool :=
      (sempty (c_tlsheader cfg) || negb (beq rid th))).
 
 (* ---- finding regions (predicates on INPUTS) ---- *)
-(* 1: the route's host= option changes r.Host before addHeaders runs *)
+(* 1 (REPAIRED by 7dd13e1, no longer a region of the current code): the route's host= option
+      changed r.Host before addHeaders ran.  Kept for the refutation theorem about
+      [serve_host_first_unrepaired]. *)
 Definition F_host_rewrite (t : target) (host : str) : bool :=
   negb (beq (rewritten_host t host) host).
 (* 2 (REPAIRED by afbb806, no longer a region of the current code): Upgrade: Websocket
@@ -119,7 +121,7 @@ Definition expl (l : list (bool * N)) : option N :=
 (* [xff_here]: X-Forwarded-For is expected at this observation point
    [plain]: the request went through httputil.ReverseProxy (Connection is acted upon) *)
 Definition clauses (cfg : config) (hdr : hmap) (peer host : str) (tls : bool)
-           (rewritten xff_here : bool) (up : hmap) : list (bool * option N) :=
+           (xff_here : bool) (up : hmap) : list (bool * option N) :=
   let conn k := F_conn_lists hdr k in
   let cih := canon_key (c_clientip cfg) in
   [ (* configured client-IP header carries the peer *)
@@ -133,9 +135,9 @@ Definition clauses (cfg : config) (hdr : hmap) (peer host : str) (tls : bool)
      expl [(conn (canon_key (c_tlsheader cfg)), 4)]);
     (negb (fresh hdr) || cl_proto tls up, expl [(conn K_XFP, 4)]);
     (negb (sempty (hget hdr K_XFPORT)) || cl_port host tls up,
-     expl [(conn K_XFPORT, 4); (rewritten, 1)]);
+     expl [(conn K_XFPORT, 4)]);
     (negb (sempty (hget hdr K_XFH)) || sempty host || cl_host host up,
-     expl [(conn K_XFH, 4); (rewritten, 1)]);
+     expl [(conn K_XFH, 4)]);
     (cl_fwd hdr peer tls up, expl [(conn K_FWD, 4)]) ].
 
 Definition all_hold (l : list (bool * option N)) : bool := forallb fst l.
@@ -149,8 +151,7 @@ Definition failing_region (l : list (bool * option N)) : option N :=
   end.
 
 (* no region applies to this input at all *)
-Definition no_region (cfg : config) (t : target) (hdr : hmap) (host : str) : bool :=
-  negb (F_host_rewrite t host) &&
+Definition no_region (cfg : config) (hdr : hmap) : bool :=
   negb (F_cih_xrealip_forged cfg hdr) &&
   negb (existsb (F_conn_lists hdr)
          [canon_key (c_clientip cfg); canon_key (c_tlsheader cfg); K_XRI; K_XFP; K_XFPORT; K_XFH; K_FWD]).
